@@ -3,6 +3,9 @@
 package c06
 
 import (
+	"github.com/php-any/origami/data"
+	"github.com/php-any/origami/std"
+	"github.com/php-any/origami/std/php/core"
 	"verif/harness/sx"
 	"verif/symx"
 )
@@ -226,12 +229,20 @@ func H_alias() {
 // H_reference: with an explicit & the write IS visible; objects are handles; clone is independent.
 func H_reference() {
 	w := symx.Int("w")
-	k := symx.Choose("case", 4)
+	k := symx.Choose("case", 9)
+	// `(object)` resolves to the function `object` of package std; stdClass is the class std registers
+	sx.Builtins = []func() data.FuncStmt{func() data.FuncStmt { return std.NewObjectFunction() }}
+	sx.Classes = []func() data.ClassStmt{func() data.ClassStmt { return &core.StdClass{} }}
 	srcs := []string{
 		"class K { public $n = [\"k\" => [1, 2], \"m\" => [\"p\" => 1]]; } $o = new K(); $q = clone $o; $q->n[\"k\"][0] = $w; $q->n[\"m\"][\"p\"] = $w; emit($o->n[\"k\"][0]); emit($o->n[\"m\"][\"p\"]);",
 		"$a = [1, 2]; $b = &$a; $b[0] = $w; emit($a[0]);",
 		"class K { public $p = 1; } $o = new K(); $q = $o; $q->p = $w; emit($o->p);",
 		"class K { public $p = 1; public $arr = [1, 2]; } $o = new K(); $q = clone $o; $q->p = $w; $q->arr[0] = $w; emit($o->p); emit($o->arr[0]);",
+		"$o = new stdClass(); $o->p = 1; $q = $o; $q->p = $w; emit($o->p);",
+		"class K { public $p = 1; } function wr($x, $w) { $x->p = $w; return 1; } $o = new K(); wr($o, $w); emit($o->p);",
+		"class K { public $p = 1; } class H2 { public $h = null; public static $sh = null; } $o = new K(); $k = new H2(); $k->h = $o; H2::$sh = $o; $arr = [$o, \"x\" => $o]; $k->h->p = $w; emit($o->p); emit($arr[0]->p); emit($arr[\"x\"]->p); emit(H2::$sh->p);",
+		"class K { public $p = 1; } $o = new K(); $f = function($x) { return $x; }; $q = $f($o); $rows = [$o]; foreach ($rows as $r) { $r->p = $w; } emit($o->p); emit($q->p);",
+		"$o = (object)[\"p\" => 1]; $q = $o; $q->p = $w; emit($o->p);",
 	}
 	s := sx.Compile(srcs[k])
 	symx.Assert(s.Err == nil, "template parses")
@@ -257,6 +268,15 @@ func H_reference() {
 		symx.Assert(len(tr) == 1 && tr[0] == w, "objects are shared by handle")
 	case 3:
 		symx.Assert(len(tr) == 2 && tr[0] == 1 && tr[1] == 1, "clone is independent (own properties incl. arrays)")
+	case 4, 5:
+		symx.Assert(len(tr) == 1 && tr[0] == w, "objects are shared by handle (stdClass / by-value parameter)")
+	case 6:
+		symx.Assert(len(tr) == 4 && tr[0] == w && tr[1] == w && tr[2] == w && tr[3] == w, "objects are shared by handle (stored in a property, a static property, a list, a string key)")
+	case 7:
+		symx.Assert(len(tr) == 2 && tr[0] == w && tr[1] == w, "objects are shared by handle (closure result, foreach value)")
+	case 8:
+		// (object)[...] and json_decode objects are data.ObjectValue, the representation of associative arrays: copied on assignment
+		symx.AssertKnown(len(tr) == 1 && tr[0] == w, "objects are shared by handle ((object) cast)", true, "C06-cast-object-is-a-value")
 	}
 	symx.Reach("end")
 }
